@@ -12,7 +12,12 @@
    never return nil; fmt.Sprintf and the clock are arbitrary. *)
 From Coq Require Import List String Bool ZArith Lia ZifyBool.
 From Coq Require Import NArith ZifyNat ZifyN.
-From RQ Require Import Lib.GoLib Lib.GenTac Gen.Cas Gen.Mrsw Gen.ReadyTarget Model.C34.
+From RQ Require Import Lib.GoLib.
+From RQ Require Import Lib.GenTac.
+From RQ Require Import Gen.Cas.
+From RQ Require Import Gen.Mrsw.
+From RQ Require Import Gen.ReadyTarget.
+From RQ Require Import Model.C34.
 Import ListNotations.
 Local Open Scope string_scope.
 
@@ -37,7 +42,7 @@ Definition rep_cas (s : cas) (start : Z) : CheckAndSet := mk_CheckAndSet (c_stat
 Definition cas_core (s : cas) : bool * string := (c_state s, c_owner s).
 Definition gen_core (g : CheckAndSet) : bool * string := (CheckAndSet_state g, CheckAndSet_owner g).
 
-Ltac unf_cas := cbv beta iota zeta delta [rep_cas cas_core gen_core CheckAndSet_Begin CheckAndSet_End CheckAndSet_Owner
+Ltac unf_cas := aux; cbv beta iota zeta delta [rep_cas cas_core gen_core CheckAndSet_Begin CheckAndSet_End CheckAndSet_Owner
   cas_step_obs obs_of_err set_CheckAndSet_owner set_CheckAndSet_state set_CheckAndSet_startT
   CheckAndSet_state CheckAndSet_owner CheckAndSet_startT c_state c_owner c_holders fst snd] in *.
 
@@ -70,7 +75,7 @@ Definition absorb_m (s : mrsw) (g : MultiRSW) (effs : list Mrsw.effect) : mrsw :
     {| m_owner := MultiRSW_owner g; m_nr := MultiRSW_numReaders g; m_wait := m_wait s; m_woken := m_woken s;
        m_rd := m_rd s; m_wr := m_wr s |}.
 
-Ltac unf_m := cbv beta iota zeta delta [rep_m m_core absorb_m obs_of_err obs_of_res obs_of_unit
+Ltac unf_m := aux; cbv beta iota zeta delta [rep_m m_core absorb_m obs_of_err obs_of_res obs_of_unit
   MultiRSW_BeginRead MultiRSW_EndRead MultiRSW_BeginWrite MultiRSW_EndWrite MultiRSW_UpgradeToWriter
   set_MultiRSW_owner set_MultiRSW_numReaders MultiRSW_owner MultiRSW_numReaders
   mrsw_step_obs acquire broadcast is_empty m_owner m_nr m_wait m_woken m_rd m_wr fst snd fold_left app] in *.
@@ -125,7 +130,7 @@ Definition rep_rt (s : rt) : ReadyTarget N nat := mk_ReadyTarget N nat (r_cur s)
 Definition closes (effs : list (ReadyTarget.effect nat)) : list nat :=
   map (fun e => match e with E_close _ c => c end) effs.
 
-Ltac unf_rt := cbv beta iota zeta delta [rep_rt closes ReadyTarget_Subscribe ReadyTarget_Unsubscribe
+Ltac unf_rt := aux; cbv beta iota zeta delta [rep_rt closes ReadyTarget_Subscribe ReadyTarget_Unsubscribe
   ReadyTarget_Signal ReadyTarget_Reset rt_step set_ReadyTarget_currentTarget set_ReadyTarget_subscribers
   r_cur r_subs r_closed r_next] in *;
   cbn [ReadyTarget_currentTarget ReadyTarget_subscribers] in *.
